@@ -57,6 +57,7 @@ type VerifC09StallObs struct {
 	// call arrived at the client's stdout) to the callback with the error
 	ElapsedMs int64 `json:"elapsedMs"`
 	PeriodMs  int64 `json:"periodMs"` // clientResponseTimeout as compiled
+	FrozenMs  int64 `json:"frozenMs"` // set by the harness: the process was not scheduled for that long
 }
 
 type verifC09StallOut struct {
